@@ -763,12 +763,23 @@ impl<'a> Driver<'a> {
         self.out.emit("sanread", &format!("\"q\":[{}]", items.join(",")));
     }
 
-    fn weight(b: &Board, m: Move) -> u64 {
+    fn weight(b: &Board, m: Move, race: bool) -> u64 {
         let us = b.side_to_move();
         if b.colors(us).has(m.to) {
             return 12; // castle
         }
         let mut w = 2;
+        if race {
+            // a promotion race: pawns run and take, everything else mostly waits; promotions (every kind) are taken when offered
+            if m.promotion.is_some() {
+                return 400;
+            }
+            if b.piece_on(m.from) == Some(Piece::Pawn) {
+                let adv = m.to.rank().relative_to(us) as u64;
+                return 10 + 6 * adv + if m.from.file() != m.to.file() { 25 } else { 0 };
+            }
+            return if b.colors(!us).has(m.to) { 3 } else { 1 };
+        }
         if b.colors(!us).has(m.to) {
             w += 4;
         }
@@ -903,6 +914,7 @@ impl<'a> Driver<'a> {
         self.emit_reset(&src, &arg, &b);
         let mut prev: Option<Board> = None;
         let plies = 1 + self.rng.below(self.cfg.plies);
+        let race = self.rng.chance(1, 4);
         for ply in 0..=plies {
             self.observe(&b, prev.as_ref());
             if ply == plies {
@@ -943,11 +955,11 @@ impl<'a> Driver<'a> {
             if mv.is_empty() {
                 break;
             }
-            let total: u64 = mv.iter().map(|&m| Self::weight(&b, m)).sum();
+            let total: u64 = mv.iter().map(|&m| Self::weight(&b, m, race)).sum();
             let mut x = self.rng.below(total);
             let mut chosen = mv[0];
             for &m in &mv {
-                let w = Self::weight(&b, m);
+                let w = Self::weight(&b, m, race);
                 if x < w {
                     chosen = m;
                     break;
